@@ -631,6 +631,10 @@ def dot(ex, state, a, b, line):
     a, b = need_rank(ex, state, a, line), need_rank(ex, state, b, line)
     if len(a.shape) == 0 or len(b.shape) == 0:
         return elementwise(ex, state, [a, b], line)
+    if len(a.shape) == 1 and len(b.shape) == 1:
+        # inner product of two vectors (no conjugation): a NumPy scalar, complex if an operand is
+        ex.ctx.oblige(state, 'dot-shape', line, a.shape[0] == b.shape[0], 'shapes not aligned')
+        return SNum('dot', cplx=z3.simplify(z3.Or(a.cplx, b.cplx)))
     if len(b.shape) == 1:
         ex.ctx.oblige(state, 'dot-shape', line, a.shape[-1] == b.shape[0], 'shapes not aligned')
         shape = a.shape[:-1]
